@@ -21,13 +21,15 @@ def Pole.val : Pole → α
   | .north => lit 1
   | .south => -(lit 1)
 
+/-- the arithmetic of `_vector2xy` on the already normalised components (this is what T-ast ties to the source) -/
+def vector2xyUnit (pole : α) (u : Vec3 α) : α × α :=
+  let denom := u.z - pole
+  if beq denom (lit 0) then (lit 0, lit 0)
+  else ((-pole) * u.x / denom, (-pole) * u.y / denom)
+
 /-- `_vector2xy(v, pole)`: the vector is made a unit vector first; `(X, Y) = (0, 0)` is the explicit
 guarded branch when the denominator `z - p` vanishes (vector at the projection point) -/
-def vector2xyRaw (p : Pole) (v : Vec3 α) : α × α :=
-  let u := Vec3.unit v
-  let denom := u.z - p.val
-  if beq denom (lit 0) then (lit 0, lit 0)
-  else ((-p.val) * u.x / denom, (-p.val) * u.y / denom)
+def vector2xyRaw (p : Pole) (v : Vec3 α) : α × α := vector2xyUnit p.val (Vec3.unit v)
 
 /-- `v <= SphericalRegion([0, 0, -pole])`, i.e. `dot(normal, v) > -1e-9` on the vector *as given*
 (not normalised) -/
@@ -42,10 +44,13 @@ def vector2xy (p : Pole) (vs : List (Vec3 α)) : List (α × α) :=
 def vector2xySplit (vs : List (Vec3 α)) : List (α × α) × List (α × α) :=
   (vector2xy .south vs, vector2xy .north vs)
 
-/-- `InverseStereographicProjection(pole).xy2vector(x, y)` -/
-def xy2vector (p : Pole) (x y : α) : Vec3 α :=
+/-- the arithmetic of `xy2vector` with the pole as a number (this is what T-ast ties to the source) -/
+def xy2vectorP (pole : α) (x y : α) : Vec3 α :=
   let denom := lit 1 + npow x 2 + npow y 2
-  ⟨lit 2 * x / denom, lit 2 * y / denom, (-p.val) * (lit 1 - npow x 2 - npow y 2) / denom⟩
+  ⟨lit 2 * x / denom, lit 2 * y / denom, (-pole) * (lit 1 - npow x 2 - npow y 2) / denom⟩
+
+/-- `InverseStereographicProjection(pole).xy2vector(x, y)` -/
+def xy2vector (p : Pole) (x y : α) : Vec3 α := xy2vectorP p.val x y
 
 /-! ### spherical coordinates -/
 
